@@ -53,9 +53,19 @@ const (
 	fnLast
 	fnSpread
 	fnMedian
+	fnDistinct      // distinct(f)
+	fnMode          // mode(f)
+	fnPercentile    // percentile(f, Pct2/2)
+	fnCountDistinct // count(distinct(f))
 )
 
-var fnNames = []string{"f", "count", "sum", "mean", "min", "max", "first", "last", "spread", "median"}
+// column name of the result
+var fnNames = []string{"f", "count", "sum", "mean", "min", "max", "first", "last", "spread", "median",
+	"distinct", "mode", "percentile", "count"}
+
+// label of the function in the distribution counters
+var fnLabels = []string{"f", "count", "sum", "mean", "min", "max", "first", "last", "spread", "median",
+	"distinct", "mode", "percentile", "count_distinct"}
 
 const (
 	fillNull = iota // default
@@ -99,6 +109,7 @@ type Stmt struct {
 	Off      int   `json:"offset"`
 	SLimit   int   `json:"slimit"`
 	SOff     int   `json:"soffset"`
+	Pct2     int   `json:"pct2,omitempty"` // percentile: twice the second argument (N or N.5)
 }
 
 type Layout struct {
@@ -125,9 +136,18 @@ type CaseDesc struct {
 func (s Stmt) text() string {
 	var sb strings.Builder
 	sb.WriteString("SELECT ")
-	if s.Fn == fnRaw {
+	switch s.Fn {
+	case fnRaw:
 		sb.WriteString(`"f"`)
-	} else {
+	case fnPercentile:
+		if s.Pct2%2 == 0 {
+			fmt.Fprintf(&sb, `percentile("f", %d)`, s.Pct2/2)
+		} else {
+			fmt.Fprintf(&sb, `percentile("f", %d.5)`, s.Pct2/2)
+		}
+	case fnCountDistinct:
+		sb.WriteString(`count(distinct("f"))`)
+	default:
 		fmt.Fprintf(&sb, `%s("f")`, fnNames[s.Fn])
 	}
 	fmt.Fprintf(&sb, ` FROM "m" WHERE time >= %d AND time <= %d`, s.TMin, s.TMax)
@@ -692,7 +712,8 @@ func coqStmt(s Stmt) string {
 		pred = fmt.Sprintf("(Some (%d%%nat, %s, %d))", s.PredTag, hx.CoqBool(s.PredNeg), s.PredVal)
 	}
 	fill := []string{"FillNull", "FillNone", "(FillNum " + hx.CoqZ(s.FillVal) + ")", "FillPrev", "FillLinear"}[s.Fill]
-	fn := []string{"FRaw", "FCount", "FSum", "FMean", "FMin", "FMax", "FFirst", "FLast", "FSpread", "FMedian"}[s.Fn]
+	fn := []string{"FRaw", "FCount", "FSum", "FMean", "FMin", "FMax", "FFirst", "FLast", "FSpread", "FMedian",
+		"FDistinct", "FMode", fmt.Sprintf("(FPercentile %d)", s.Pct2), "FCountDistinct"}[s.Fn]
 	return fmt.Sprintf("(mkStmt %s %s %s %s %s %s [%s;%s] %s %s %d %d %d %d)",
 		fn, hx.CoqZ(s.TMin), hx.CoqZ(s.TMax), pred, hx.CoqZ(s.Interval), hx.CoqZ(s.OffLit),
 		hx.CoqBool(s.ByHost), hx.CoqBool(s.ByRegion), fill, hx.CoqBool(s.Desc), s.Limit, s.Off, s.SLimit, s.SOff)
@@ -768,7 +789,7 @@ func runDataSet(o *hx.Out, e *env, d Data, stmts []Stmt, layouts []Layout, origi
 			nvals += len(row.T)
 		}
 		coq := fmt.Sprintf("CQ %s %s %s %s %s", ftCoq[d.FT], dataCoq, coqStmt(s), hx.CoqList(rs), hx.CoqList(uniqCoq))
-		o.Count("fn:" + fnNames[s.Fn])
+		o.Count("fn:" + fnLabels[s.Fn])
 		o.Count(fmt.Sprintf("ft:%s", ftCoq[d.FT]))
 		if s.Interval > 0 {
 			o.Count(fmt.Sprintf("fill:%d", s.Fill))
